@@ -12,7 +12,7 @@ RULE = (
 )
 BOUNDS = {
     "quick": "12 singles + 132 ordered pairs x 12 files of <=3 records x 6 run methods (+ if_all_agree for the breadth-first methods)",
-    "thorough": "singles, pairs, 990 ordered triples x all 40 files of <=3 records x 6 run methods (+ if_all_agree)",
+    "thorough": "singles, pairs, 504 ordered triples over a 9-member subset x all 40 files of <=3 records x 6 run methods (+ if_all_agree)",
 }
 CHUNK = 30
 BUDGET = {"quick": 600, "thorough": 3400}
@@ -53,7 +53,8 @@ def cases(tier, seed):
     files = FILES_Q if tier == "quick" else _all_files()
     sizes = (1, 2) if tier == "quick" else (1, 2, 3)
     for k in sizes:
-        for grp in itertools.permutations(range(len(MEMBERS)), k):
+        pool = range(len(MEMBERS)) if k < 3 else list(range(8)) + [len(MEMBERS) - 1]
+        for grp in itertools.permutations(pool, k):
             for f in files:
                 for m in groups.METHODS:
                     yield {"group": list(grp), "file": f, "method": m, "agree": False}
